@@ -41,6 +41,11 @@ def run(tier):
         _src, _mods = _ff.xmod_fiber_program(rxf.fork(str(i)))
         plist.append({"name": "xmodfiber/%d" % i, "steps": [("snip", _src)], "mods": _mods})
 
+    from ..gen import feat_exc as _fe
+    rli = ck.rng.fork("locals")
+    for i in range(250 if quick else 8000 * common.TS):
+        plist.append({"name": "locals/%d" % i, "steps": [("snip", _fe.local_integrity_program(rli.fork(str(i))))], "mods": []})
+
     def seen(p, m, res):
         v = m["view"][0]
         src = p["steps"][0][1]
